@@ -169,6 +169,9 @@ def side(be_res, with_words=True, digest_over=16):
     words = []
     if with_words:
         for row in be_res.get("words", []):
+            if row and isinstance(row[0], str) and row[0].startswith("len"):
+                words.append(list(row))      # already a digest (harness rec.words = "digest")
+                continue
             b = [bits(v) for v in row]
             words.append(b if len(b) <= digest_over else
                          [f"len{len(b)}", hashlib.sha1(",".join(b).encode()).hexdigest()])
